@@ -6,6 +6,8 @@ Definition kvs_get_catches_fnf : bool := true.
 Definition kvs_use_fsync : bool := true.
 Definition key_to_file_path_identity : bool := true.
 Definition default_max_src : Z := 1048576.
+Definition ufm_oversize_uncached : bool := true.
+Definition ufm_uncached_purges : bool := true.
 Definition df_concat_old_first : bool := true.
 Definition df_sort_stable : bool := true.
 Definition df_keep_first : bool := true.
